@@ -264,113 +264,3 @@ func (c *vDConn) Close() error {
 }
 func (c *vDConn) LocalAddr() net.Addr  { return vStubAddr{} }
 func (c *vDConn) RemoteAddr() net.Addr { return vStubAddr{} }
-
-// C20_dial_cancellation: cancellation / expiry / dial timeout at any I/O operation, any
-// interleaving of the context watcher with the handshake, responsive and silent peers.
-func C20_dial_cancellation() {
-	vRandConcrete(true)
-	vClock, vTimers, vTheConn = 0, nil, nil
-	vRealStart = time.Now()
-	// configuration
-	// the configuration and the cancellation point are solver variables
-	ctxKind := int(vU8("ctx")) // 0 background, 1 cancellable (no deadline), 2 deadline 20ms, 3 deadline 80ms
-	vAssume(ctxKind <= 3)
-	timeout := int64(0) // dial timeout in ms (0 = none)
-	if vBool("hastimeout") {
-		timeout = 40
-	}
-	silent := vBool("silentpeer")
-	cancelAt := vInt("cancelat") // cancel right before connection operation #cancelAt (-1: never)
-	vAssume(vAnd(cancelAt >= -1, cancelAt <= 5))
-	if ctxKind != 1 {
-		vAssume(cancelAt == -1)
-	}
-	// a silent peer with nothing that could ever end the wait is outside the property
-	// (with a silent peer only the request write (#0) and the first read (#1) ever happen, so a
-	// cancellation tied to a later operation never fires)
-	// — #1 never *completes*, so a cancellation at its end does not fire either)
-	late := vBool("cancellate")
-	bounded := timeout > 0 || ctxKind >= 2 || cancelAt == 0 || (cancelAt == 1 && !late)
-	if silent && !bounded {
-		vAssume(false)
-	}
-	var ctx context.Context = context.Background()
-	var root *vCtx
-	if ctxKind != 0 {
-		root = vNewCtx()
-		ctx = root
-		if ctxKind >= 2 {
-			d := []int64{20, 80}[ctxKind-2] * vMs
-			root.deadline, root.hasDL = vTimeAt(d), true
-			if vSymbolic() {
-				vTimers = append(vTimers, &vTimer{at: d, fire: func() { root.cancel(context.DeadlineExceeded) }})
-			} else {
-				time.AfterFunc(time.Duration(d), func() { root.cancel(context.DeadlineExceeded) })
-			}
-		}
-	}
-	conn := &vDConn{cancelAt: cancelAt, cancelLate: late, ctx: root, silent: silent}
-	vTheConn = conn
-	d := Dialer{Timeout: time.Duration(timeout * vMs), NetDial: func(ctx context.Context, network, addr string) (net.Conn, error) { return conn, nil }}
-	var err error
-	var got net.Conn
-	vCallBounded("dial.returns_once_context_or_timeout_ends", func() {
-		got, _, _, err = d.Dial(ctx, "ws://example.com/")
-	}, func() {
-		if root != nil {
-			root.cancel(context.Canceled)
-		}
-		conn.mu.Lock()
-		conn.dl = time.Unix(1, 0)
-		conn.mu.Unlock()
-	})
-	elapsed := vNowNs()
-	conn.mu.Lock()
-	conn.returned = true
-	conn.mu.Unlock()
-	if vSymbolic() {
-		// (d) the watcher goroutine has finished by the time Dial returns
-		vAssert(vThreads() == 1, "dial.watcher_finished_at_return")
-	} else {
-		time.Sleep(5 * time.Millisecond)
-	}
-	conn.mu.Lock()
-	dl, closed, opsAfter := conn.dl, conn.closed, conn.opsAfter
-	conn.mu.Unlock()
-	if err == nil {
-		// (a) success: deadlines left cleared, conn never touched again
-		vAssert(got == net.Conn(conn), "dial.success_returns_conn")
-		vAssert(dl.IsZero(), "dial.success_leaves_deadline_cleared")
-		vAssert(!closed, "dial.success_does_not_close")
-	} else {
-		// (b) failure: the connection was closed
-		vAssert(closed, "dial.error_closes_conn")
-		// (c) a context that has ended is reported as such, not as a raw i/o timeout
-		if root != nil && root.Err() != nil {
-			_, rawTimeout := err.(vTimeoutErr)
-			vAssert(!rawTimeout, "dial.context_error_not_raw_timeout")
-		}
-	}
-	vAssert(opsAfter == 0, "dial.conn_untouched_after_return")
-	// (e) with a silent peer Dial returns once the context ends or the dial timeout elapses,
-	// whichever is first (5 ms of slack natively)
-	if silent {
-		bound := int64(-1)
-		if timeout > 0 {
-			bound = timeout * vMs
-		}
-		if ctxKind >= 2 {
-			if cd := []int64{20, 80}[ctxKind-2] * vMs; bound < 0 || cd < bound {
-				bound = cd
-			}
-		}
-		if bound >= 0 {
-			slack := int64(0)
-			if !vSymbolic() {
-				slack = 30 * vMs
-			}
-			vAssert(elapsed <= bound+slack, "dial.returns_by_earliest_of_timeout_and_deadline")
-			vAssert(err != nil, "dial.silent_peer_is_error")
-		}
-	}
-}
